@@ -862,3 +862,42 @@ def value_fates(body, def_bi):
                 seen.add(st)
                 stack.append(st)
     return fates
+
+
+# ============================================================ K6 helpers: switch arm tables
+def arm_regions(body, bi):
+    """for the switch in block bi: {meaning: set(blocks reachable only through that arm)}"""
+    term, outs = body.switch_info(bi)
+    reach = {}
+    for tgt, lab, meaning in outs:
+        reach.setdefault(meaning if not isinstance(meaning, tuple) else ("other",), set()).update(
+            body.reachable([tgt], cut_edges=body.back_edges()))
+    regions = {}
+    for m, r in reach.items():
+        others = set()
+        for m2, r2 in reach.items():
+            if m2 != m:
+                others |= r2
+        regions[m] = r - others
+    return term, regions
+
+
+def ints_in_blocks(body, blocks, bits=None):
+    """integer constants appearing as call arguments / assigned values in the given blocks"""
+    out = []
+    for bi in sorted(blocks):
+        blk = body.blocks[bi]
+        for s in blk["s"]:
+            if s["k"] == "as":
+                for o in (s["rv"].get("o"), s["rv"].get("a"), s["rv"].get("b")):
+                    if o and o["k"] == "c" and isinstance(o.get("v"), int):
+                        out.append((o["v"], o.get("ty")))
+                for o in s["rv"].get("ops", []) if s["rv"]["r"] == "agg" else []:
+                    if o["k"] == "c" and isinstance(o.get("v"), int):
+                        out.append((o["v"], o.get("ty")))
+        t = blk["t"]
+        if t["k"] == "call":
+            for a in t["a"]:
+                if a["k"] == "c" and isinstance(a.get("v"), int):
+                    out.append((a["v"], a.get("ty")))
+    return out
